@@ -2,7 +2,9 @@
    ops:  alloc <n> | w <rel> <hex> | wabs <off> <hex> | push | pushn <n> | pushabs <off> <n>
          | peek | pop | more | reset | dump | st
    `w`, `push`, `pushn` refer to the region of the latest successful alloc seen in the outputs
-   (model mode: the model's, monitor mode: the implementation's), as a client of the ring does.
+   (model mode: the model's, monitor mode: the implementation's), as a client of the ring does;
+   while no allocation is outstanding (last alloc failed, or already committed, or reset) they are
+   not executed and answered with `skip`.
    outputs: a <off> <n> | none | - | c <hex> | p <off> <len> <hex> | 0/1 | d <hex> | s <front> <end>
             | FAULT | SKIPPED *)
 let cf = ref { size = O; ovh = O; lmod = O }
@@ -11,6 +13,7 @@ let mo = ref (minit O)   (* strict monitor: with the empty-ring guarantee *)
 let mo2 = ref (minit O)  (* the same without that clause, so that the known finding never hides another violation *)
 let bad2 = ref None
 let last = ref (0, 0)
+let have = ref false
 let faulted = ref false
 let pos = ref 0
 let bad = ref None
@@ -45,7 +48,13 @@ let parse_out l = match words l with
   | ["s"; f; e] -> OSt (nat_of_int (i f), nat_of_int (i e))
   | ["FAULT"] -> OFault
   | _ -> OSkipped (* SKIPPED, NOBUILD, MISSING, junk: shape violation unless outside the discipline *)
-let note_alloc = function OAlloc (o, n) -> last := (int_of_nat o, int_of_nat n) | _ -> ()
+let note op r = match op, r with
+  | Alloc _, OAlloc (o, n) -> last := (int_of_nat o, int_of_nat n); have := true
+  | Alloc _, _ -> have := false
+  | Reset, _ -> have := false
+  | _ -> ()
+let skipped l = (match words l with ("w" | "push" | "pushn") :: _ -> true | _ -> false) && not !have
+let consumes l = (match words l with ("push" | "pushn") :: _ -> true | _ -> false)
 let tag_name t = match int_of_nat t with
   | 1 -> "oob_write" | 2 -> "overlap" | 3 -> "alloc_complete" | 4 -> "alloc_empty"
   | 5 -> "region_clobbered" | 6 -> "fifo_order" | 7 -> "bytes_intact" | 8 -> "more_than_one"
@@ -55,23 +64,26 @@ let () = main_loop
      let size = nat_of_int (i (List.nth cfg 0)) in
      let o = if List.length cfg > 1 && List.nth cfg 1 = "nrf" then nrf_overhead else default_overhead in
      cf := { size = size; ovh = o; lmod = push_len_mod };
-     st := init !cf; mo := minit size; mo2 := minit size; last := (0, 0); faulted := false; pos := 0; bad := None; bad2 := None)
+     st := init !cf; mo := minit size; mo2 := minit size; last := (0, 0); have := false; faulted := false; pos := 0; bad := None; bad2 := None)
   ~model:(fun l ->
-     if !faulted then "SKIPPED" else begin
-       let (s', r) = step !cf !st (parse_op l) in
-       st := s'; note_alloc r; if is_fault r then faulted := true; show_out r
+     if !faulted then "SKIPPED" else if skipped l then "skip" else begin
+       let op = parse_op l in
+       let (s', r) = step !cf !st op in
+       st := s'; note op r; if consumes l then have := false; if is_fault r then faulted := true; show_out r
      end)
   ~monitor:(fun o r ->
-     let op = parse_op o and out = parse_out r in
-     note_alloc out;
-     (if !bad = None then
-        match mstep true O (!cf).size (!cf).ovh !mo op out with
-        | (Ok, m') -> mo := m'
-        | (Bad t, _) -> bad := Some (!pos, tag_name t));
-     (if !bad2 = None then
-        match mstep false O (!cf).size (!cf).ovh !mo2 op out with
-        | (Ok, m') -> mo2 := m'
-        | (Bad t, _) -> bad2 := Some (!pos, tag_name t));
+     (if not (skipped o) then begin
+        let op = parse_op o and out = parse_out r in
+        note op out; if consumes o then have := false;
+        (if !bad = None then
+           match mstep true O (!cf).size (!cf).ovh !mo op out with
+           | (Ok, m') -> mo := m'
+           | (Bad t, _) -> bad := Some (!pos, tag_name t));
+        (if !bad2 = None then
+           match mstep false O (!cf).size (!cf).ovh !mo2 op out with
+           | (Ok, m') -> mo2 := m'
+           | (Bad t, _) -> bad2 := Some (!pos, tag_name t))
+      end else if String.trim r <> "skip" && !bad2 = None then bad2 := Some (!pos, "shape"));
      incr pos; None)
   ~finish:(fun () -> match !bad2, !bad with
      | Some (p, t), _ | None, Some (p, t) -> Printf.sprintf "BAD %d %s" p t
